@@ -72,21 +72,24 @@ Qed.
 
 Lemma fld_eqb_refl : forall a, fld_eqb a a = true.
 Proof.
-  intros [|q|s|l]; cbn; [reflexivity|apply Qeq_bool_iff; reflexivity|apply String.eqb_refl|apply slist_eqb_eq; reflexivity].
+  intros [|q|s|l|b]; cbn; [reflexivity|apply Qeq_bool_iff; reflexivity|apply String.eqb_refl|apply slist_eqb_eq; reflexivity|
+                           apply Bool.eqb_reflx].
 Qed.
 Lemma fld_eqb_sym : forall a b, fld_eqb a b = true -> fld_eqb b a = true.
 Proof.
-  intros [|q|s|l] [|q'|s'|l']; cbn; try discriminate; try reflexivity; intros H.
+  intros [|q|s|l|b] [|q'|s'|l'|b']; cbn; try discriminate; try reflexivity; intros H.
   - apply Qeq_bool_iff. apply Qeq_bool_iff in H. symmetry. exact H.
   - apply String.eqb_eq in H. subst. apply String.eqb_refl.
   - apply slist_eqb_eq in H. subst. apply slist_eqb_eq. reflexivity.
+  - apply Bool.eqb_prop in H. subst. apply Bool.eqb_reflx.
 Qed.
 Lemma fld_eqb_trans : forall a b c, fld_eqb a b = true -> fld_eqb b c = true -> fld_eqb a c = true.
 Proof.
-  intros [|q|s|l] [|q'|s'|l'] [|q''|s''|l'']; cbn; try discriminate; try reflexivity; intros H1 H2.
+  intros [|q|s|l|b] [|q'|s'|l'|b'] [|q''|s''|l''|b'']; cbn; try discriminate; try reflexivity; intros H1 H2.
   - apply Qeq_bool_iff. apply Qeq_bool_iff in H1. apply Qeq_bool_iff in H2. rewrite H1. exact H2.
   - apply String.eqb_eq in H1. apply String.eqb_eq in H2. subst. apply String.eqb_refl.
   - apply slist_eqb_eq in H1. apply slist_eqb_eq in H2. subst. apply slist_eqb_eq. reflexivity.
+  - apply Bool.eqb_prop in H1. apply Bool.eqb_prop in H2. subst. apply Bool.eqb_reflx.
 Qed.
 Lemma key_eqb_refl : forall a, key_eqb a a = true.
 Proof. induction a as [|x t IH]; cbn [key_eqb]; [reflexivity|]. rewrite fld_eqb_refl, IH. reflexivity. Qed.
@@ -320,22 +323,38 @@ Proof.
   - intros r Hr. eapply Permutation_in; [symmetry; exact P|]. apply in_map. exact Hr.
 Qed.
 
-(* ------------------------------------------------------------------ the comparison ignores `bidir` *)
-Definition ex_key : list fld :=
-  [FStr "trx A"; FStr "trx B"; FStr "Voyager"; FStr "mode 1"; FNum (32000000000 # 1); FList []; FList [];
-   FNum (50000000000 # 1); FNum (1 # 1000); FNum 8; FNum (191300000000000 # 1); FNum (191700000000000 # 1);
-   FStr "mode 1"; FNum 12; FNum (15 # 100); FNum (1 # 1000)]%string.
-Definition ex_bidir_reqs : list areq :=
-  [mkA 0 "0" [0%nat] ex_key true (100000000000 # 1) [None] [None] true;
-   mkA 1 "1" [1%nat] ex_key true (100000000000 # 1) [None] [None] false].
-
-(* a bidirectional request (tag 0) is joined into a unidirectional one: the joined request is not bidirectional *)
-Theorem agg_bidir_refuted :
-  exists reqs out d, fresh reqs /\ requests_aggregation reqs [] = (out, d) /\
-    exists r t, In r out /\ In t (a_members r) /\ bidir_of reqs t = true /\ a_bidir r = false.
+(* ------------------------------------------------------------------ `bidir` is one of the compared fields *)
+Lemma key_eqb_nth : forall a b n x, key_eqb a b = true -> nth_error a n = Some x ->
+  exists y, nth_error b n = Some y /\ fld_eqb x y = true.
 Proof.
-  exists ex_bidir_reqs. eexists. eexists. split.
-  - split; [repeat constructor; cbn; intuition discriminate|repeat constructor].
-  - split; [vm_compute; reflexivity|].
-    eexists. exists 0%nat. split; [left; reflexivity|]. split; [right; left; reflexivity|]. split; reflexivity.
+  induction a as [|u t IH]; intros [|v t'] n x H Hn; cbn [key_eqb] in H; try discriminate.
+  - destruct n; discriminate Hn.
+  - apply andb_prop in H as [H1 H2]. destruct n as [|n]; cbn [nth_error] in *.
+    + injection Hn as <-. eauto.
+    + eapply IH; eassumption.
+Qed.
+
+(* the key of every input request carries its bidir flag at position 2 (third field of compare_reqs) *)
+Definition key_has_bidir (r : areq) : Prop := nth_error (a_key r) 2 = Some (FBool (a_bidir r)).
+
+Theorem aggregation_bidir : forall reqs disj out disj',
+  fresh reqs -> Forall key_has_bidir reqs -> requests_aggregation reqs disj = (out, disj') ->
+  forall r t, In r out -> In t (a_members r) -> bidir_of reqs t = a_bidir r.
+Proof.
+  intros reqs disj out disj' FR KB H r t Hr Ht.
+  destruct (aggregation_spec _ _ _ _ FR H) as (P & F & _).
+  rewrite Forall_forall in F, KB. pose proof (F r Hr) as J.
+  destruct FR as [ND _].
+  assert (InTags : forall u, In u (a_members r) -> exists ru, by_tag reqs u = Some ru /\ In ru reqs /\ a_tag ru = u).
+  { intros u Hu. assert (Hin : In u (map a_tag reqs)).
+    { eapply Permutation_in; [exact P|]. apply in_flat_map. exists r. split; assumption. }
+    apply in_map_iff in Hin as (ru & E & Hru). exists ru. subst u. split; [apply by_tag_in; assumption|auto]. }
+  assert (Hhead : In (a_tag r) (a_members r)).
+  { pose proof (j_head _ _ J) as Hh. destruct (a_members r) as [|x xs]; [discriminate|]. injection Hh as ->. left. reflexivity. }
+  destruct (InTags t Ht) as (rt & Bt & Irt & Tt). destruct (InTags _ Hhead) as (r0 & B0 & Ir0 & T0).
+  pose proof (j_same _ _ J) as SM. rewrite Forall_forall in SM. specialize (SM t Ht).
+  rewrite (j_key _ _ J) in SM. rewrite (j_bidir _ _ J).
+  unfold key_of, bidir_of, oget in *. rewrite Bt, B0 in *.
+  destruct (key_eqb_nth _ _ 2%nat _ SM (KB rt Irt)) as (y & Ny & Ey).
+  rewrite (KB r0 Ir0) in Ny. injection Ny as <-. cbn [fld_eqb] in Ey. apply Bool.eqb_prop in Ey. exact Ey.
 Qed.
